@@ -96,6 +96,50 @@ fn viol(out: &mut COut, what: String, replay: Value) {
     }
 }
 
+/// the library against the official vectors: it must reproduce every local vector token and
+/// decrypt / verify every vector token to the recorded payload
+pub fn library_vs_vectors(vectors: &[Value], out: &mut COut) {
+    for v in vectors {
+        let ver = v["version"].as_u64().unwrap() as u8;
+        let purpose = v["purpose"].as_str().unwrap();
+        let pr = Proto::new(ver, purpose);
+        let payload = v["payload"].as_str().unwrap_or("");
+        let footer = v["footer"].as_str().unwrap_or("");
+        let assertion = v["assertion"].as_str().unwrap_or("");
+        let token = v["token"].as_str().unwrap();
+        let f = if footer.is_empty() { None } else { Some(footer) };
+        let a = if assertion.is_empty() || !pr.has_assertion() { None } else { Some(assertion) };
+        let mut km = keymat_with([7u8; 32]);
+        if purpose == "local" {
+            km.sym.copy_from_slice(&hex::decode(v["key"].as_str().unwrap()).unwrap());
+        } else if ver == 3 {
+            km.p384_sk.copy_from_slice(&hex::decode(v["sk"].as_str().unwrap()).unwrap());
+            km.p384_pk.copy_from_slice(&hex::decode(v["pk"].as_str().unwrap()).unwrap());
+        } else {
+            km.ed_sk.copy_from_slice(&hex::decode(v["sk"].as_str().unwrap()).unwrap());
+            km.ed_pk.copy_from_slice(&hex::decode(v["pk"].as_str().unwrap()).unwrap());
+        }
+        out.evaluations += 1;
+        out.distinct += 1;
+        let got = core_present(pr, token, &km, f, a);
+        if got != Out::Ok(payload.to_string()) {
+            viol(out, format!("official vector {}: the library does not accept the vector token: {}:{}", v["name"], got.class(), got.detail()),
+                 json!({"kind": "c08-vector", "vector": v}));
+        }
+        if purpose == "local" {
+            let seed = hex::decode(v["nonce"].as_str().unwrap()).unwrap();
+            let mut s32 = [0u8; 32];
+            s32[..seed.len()].copy_from_slice(&seed);
+            let minted = core_mint(pr, &km, &s32, payload, f, a);
+            out.evaluations += 1;
+            if minted != Out::Ok(token.to_string()) {
+                viol(out, format!("official vector {}: the library's token differs from the vector token", v["name"]),
+                     json!({"kind": "c08-vector", "vector": v, "library_token": minted.ok()}));
+            }
+        }
+    }
+}
+
 pub fn sweep(terms: &[Value], seed: u64, thorough: bool) -> COut {
     let mut out = COut { evaluations: 0, distinct: 0, violations: vec![], nviol: 0, samples: vec![], pinned: 0 };
     let mut r = conc::rng(seed, "c08");
